@@ -102,6 +102,9 @@ for offname, off in OFFSETS.items():
         if 0 <= special <= 93:
             quals.append([special, special, 5, 6])
             quals.append([7, special, special, special])
+    if offname == "Solexa":
+        quals += [[-5, -1, 0, 62], [-5, -5, -5, -5]]        # Solexa scores start at -5
+    quals.append([0, 1, 61, 62] if off == 64 else [0, 1, 92, 93])  # the ends of the printable range
     for chars in (None, 2, 3):
         for q in quals:
             ent = [("r1", "ACGT", q), ("r2 d", "TTGA", quals[1])]
